@@ -74,7 +74,9 @@ CLAIMS = {
                    "explicit Richardson constant; "
                    "the constants sum to 1 and cancel the error terms."),
     "C12": mixed("PROVED: Function.__call__ single-point path returns the evaluation of the point whether cached or not, keeps the cache sound and counts each distinct point once; "
-                 "every local is defined on every path; reset/deactivate contracts. BOUNDED: all 33 function classes, operation histories (single/batch/repeat/empty/reset/"
+                 "every local is defined on every path; an empty batch yields an array shaped (0, output length) and counts nothing; reset/deactivate contracts; "
+                 "the polynomial test functions (ConstantValue any dimension; FunctionLinear / FunctionMultilinear d<=3; FunctionPolynomial d<=2, degree<=3) evaluate to the stated polynomial "
+                 "and their analytic integral is the integral of that polynomial over every box (shared monomial spec, NRA). BOUNDED: all 33 function classes, operation histories (single/batch/repeat/empty/reset/"
                  "deactivate), analytic integral vs own Gauss quadrature."),
     "C13": mixed("PROVED for ALL sequences of (error, point count) the evaluation steps may produce: continue_adaptive_refinement stops at the FIRST evaluation meeting a stopping "
                  "rule, never refines after it, appends exactly one history entry per evaluation recording that evaluation (ghost counters on abstract step contracts); Integration.get_global_error_estimate (result vectors of length 1..3, norms 1/2/inf): the reported error is the normalised "
